@@ -345,6 +345,11 @@ Definition inject (target : schema) (s : str) : hres :=
       end
   end.
 
+(* the documented placeholder form ${property:FILE#KEY} *)
+Definition ph_tagged (tag var : str) : str := c_dollar :: c_lbrace :: tag ++ c_colon :: var ++ [c_rbrace].
+Definition ph_prop (file key : str) : str := ph_tagged s_property (file ++ c_hash :: key).
+Definition no_hash (s : str) : bool := forallb (fun c => negb (c =? c_hash)) s.
+
 (* the documented placeholder form ${env:NAME} for a plain name *)
 Definition ph_env (name : str) : str := c_dollar :: c_lbrace :: s_env ++ c_colon :: name ++ [c_rbrace].
 Definition name_char (c : N) : bool :=
@@ -798,6 +803,13 @@ Variable reg : list entry.
 (* lz = true: a plugin constructor's config behind a factory-typed field is out of reach of the decoder
    (it is decoded when the factory is first called).  The specification uses lz = false. *)
 Variable lz : bool.
+(* uq = true: additionally, the written key must be taken by exactly ONE field of the struct (two fields sharing a key
+   -- jsonlines' buffer-size -- decode the same written value against two types; the congruence theorem excludes them) *)
+Variable uq : bool.
+
+Fixpoint count_fields (k : str) (ffs : list fld) : nat :=
+  match ffs with [] => O | f :: r => if fold_eqb (f_key f) k then S (count_fields k r) else count_fields k r end.
+Definition field_ok (k : str) (ffs : list fld) : bool := negb uq || Nat.eqb (count_fields k ffs) 1.
 
 Definition plugin_entry (iface : str) (kvs : list (str * value)) : option entry :=
   match filter is_type_key kvs with
@@ -815,7 +827,7 @@ Fixpoint reach (p : list step) (tags : list vtag) (s : schema) (cur : cval) (v :
   | SKey k :: p' =>
       match s, v with
       | SStruct _ _, VMap kvs =>
-          if unique_key k kvs then
+          if unique_key k kvs && field_ok k (flat_fields s) then
             match find_exact k kvs, nth_field k (flat_fields s) (struct_cur s cur) with
             | Some (_, x), Some (f, c) => reach p' (f_tags f) (f_schema f) c x
             | _, _ => None
@@ -827,7 +839,7 @@ Fixpoint reach (p : list step) (tags : list vtag) (s : schema) (cur : cval) (v :
             | Some e, Some (_, x) =>
                 match e_conf e with
                 | Some (cs, d) =>
-                    if entry_lazy fk e then None
+                    if entry_lazy fk e || negb (field_ok k (flat_fields cs)) then None
                     else match nth_field k (flat_fields cs) (struct_cur cs d) with
                          | Some (f, c) => reach p' (f_tags f) (f_schema f) c x
                          | None => None
@@ -858,7 +870,7 @@ Fixpoint reach (p : list step) (tags : list vtag) (s : schema) (cur : cval) (v :
             | Some e =>
                 match e_conf e with
                 | Some (cs, d) =>
-                    if entry_lazy fk e then None
+                    if entry_lazy fk e || negb (field_ok s_nested (flat_fields cs)) then None
                     else match find_field s_nested (flat_fields cs) with
                          | Some f =>
                              match f_schema f, nth_error l i with
@@ -875,6 +887,24 @@ Fixpoint reach (p : list step) (tags : list vtag) (s : schema) (cur : cval) (v :
       | SAny, _ => Some (SAny, [], CNil, VNull)
       | _, _ => None
       end
+  end.
+
+(* a path that stays inside nested plain structs of one validation unit (the root config, or one component config) *)
+Fixpoint sreach (q : list step) (tags : list vtag) (s : schema) (v : value) : option (schema * list vtag * value) :=
+  match q with
+  | [] => Some (s, tags, v)
+  | SKey k :: q' =>
+      match s, v with
+      | SStruct _ _, VMap kvs =>
+          if unique_key k kvs then
+            match find_exact k kvs, find_field k (flat_fields s) with
+            | Some (_, x), Some f => sreach q' (f_tags f) (f_schema f) x
+            | _, _ => None
+            end
+          else None
+      | _, _ => None
+      end
+  | SIdx _ :: _ => None
   end.
 
 (* which keys the node accepts *)
